@@ -30,7 +30,7 @@ If(c, name) == IF c THEN {name} ELSE {}
 \* (ids, most recent last), the cleanups already run, the contexts it obtained
 Frame(id, k) == [id |-> id, k |-> k, open |-> TRUE, stack |-> <<>>, ran |-> {}, running |-> 0, ctxs |-> {}, regs |-> 0]
 NoSM == [active |-> FALSE, hasInv |-> FALSE, needInv |-> FALSE, lastSkipped |-> FALSE, failed |-> FALSE, inAct |-> FALSE,
-         inInv |-> FALSE, skips |-> 0, completed |-> 0, actDraws |-> 0, nf |-> FALSE, invRuns |-> 0, steps |-> 0]
+         inInv |-> FALSE, skips |-> 0, completed |-> 0, actDraws |-> 0, nf |-> FALSE, invRuns |-> 0, steps |-> 0, ovr |-> FALSE, actions |-> {"*"}]
 
 Init == /\ l = 1 /\ scen = [id |-> ""] /\ fr = <<>> /\ kind = "none" /\ sm = NoSM /\ viol = {} /\ seen = {}
 
@@ -43,7 +43,7 @@ VerdictOf ==
   [ C10 |-> {"context_dead_during_call", "context_live_at_cleanup", "context_live_after_call", "cleanup_not_lifo", "cleanup_not_run",
              "cleanup_run_twice_or_unknown", "cleanup_before_return", "invocation_overlap", "cleanup_after_end", "context_shared_between_invocations"},
     C08 |-> {"invariant_not_first", "invariant_missing_after_action", "invariant_after_skipped_action", "continued_after_falsification",
-             "actions_overlap", "no_valid_action_not_reported", "skipped_action_counted", "invariant_not_run_once", "hangs"} ]
+             "actions_overlap", "no_valid_action_not_reported", "skipped_action_counted", "invariant_not_run_once", "hangs", "skipped_action_invalidates_run", "action_not_supplied"} ]
 Verdicts == IF Property = "ALL" THEN UNION { VerdictOf[p] : p \in DOMAIN VerdictOf } ELSE VerdictOf[Property]
 
 ScenBegin == /\ Is("scen.begin") /\ Adv /\ scen' = Ev /\ fr' = <<>> /\ kind' = "none" /\ sm' = NoSM /\ viol' = {} /\ seen' = {}
@@ -83,7 +83,12 @@ FnEnd(id) ==
   LET i == FrameOf(id) IN
   IF i = 0 THEN fr' = fr ELSE fr' = [fr EXCEPT ![i].open = FALSE]
 
-InvEnd == /\ Is("inv.end") /\ Adv /\ FnEnd(Ev.inv) /\ viol' = viol
+\* A skipped action is rejected; once the repeat has enough rejections and its minimum (0 for Repeat) is reached, the rejection makes it STOP
+\* (RepeatSM!Reject) -- it never turns the whole test case invalid.  The harness reports whether such a rejection was the last thing the repeat
+\* did before the invocation unwound (see StreamTrace!InvEnd).
+InvEnd == /\ Is("inv.end") /\ Adv /\ FnEnd(Ev.inv)
+          /\ viol' = viol \cup If("rejpend" \in DOMAIN Ev /\ Ev.rejpend /\ Ev.rejcoins < 1000 /\ Ev.how # "ret" /\ ~sm.ovr,
+                                  "skipped_action_invalidates_run")
           /\ sm' = IF sm.active THEN [sm EXCEPT !.active = FALSE] ELSE sm
           /\ UNCHANGED <<scen, kind, seen>>
 CInvEnd == /\ Is("cinv.end") /\ Adv /\ FnEnd(Ev.inv) /\ viol' = viol /\ UNCHANGED <<scen, kind, sm, seen>>
@@ -159,7 +164,8 @@ Ctx ==
 \* ---- T.Repeat ---------------------------------------------------------------
 SmBegin ==
   /\ Is("sm.begin") /\ Adv
-  /\ sm' = [NoSM EXCEPT !.active = TRUE, !.hasInv = Ev.hasinv, !.needInv = Ev.hasinv]
+  /\ sm' = [NoSM EXCEPT !.active = TRUE, !.hasInv = Ev.hasinv, !.needInv = Ev.hasinv,
+                        !.actions = IF "actions" \in DOMAIN Ev THEN { Ev.actions[i] : i \in 1..Len(Ev.actions) } ELSE {"*"}]
   /\ viol' = viol /\ UNCHANGED <<scen, fr, kind, seen>>
 
 SmInvBegin ==
@@ -183,6 +189,7 @@ SmActBegin ==
                   \cup If(sm.needInv /\ sm.steps > 0, "invariant_missing_after_action")
                   \cup If(sm.inAct \/ sm.inInv, "actions_overlap")
                   \cup If(sm.skips >= 100, "no_valid_action_not_reported")
+                  \cup If("*" \notin sm.actions /\ Ev.name \notin sm.actions, "action_not_supplied")   \* Repeat runs only the supplied actions
   /\ sm' = [sm EXCEPT !.inAct = TRUE, !.actDraws = 0, !.steps = @ + 1]
   /\ UNCHANGED <<scen, fr, kind, seen>>
 
@@ -207,6 +214,8 @@ SmCall ==
   /\ sm' = IF sm.active /\ (sm.inAct \/ sm.inInv) /\ Ev.m \in {"errorf", "error", "fail", "fatalf", "fatal", "failnow", "fatalfc"} THEN [sm EXCEPT !.nf = TRUE] ELSE sm
   /\ viol' = viol /\ UNCHANGED <<scen, fr, kind, seen>>
 
+Overrun == /\ Is("h.overrun") /\ Adv /\ sm' = [sm EXCEPT !.ovr = TRUE] /\ viol' = viol /\ UNCHANGED <<scen, fr, kind, seen>>
+
 \* Repeat's own bookkeeping (hook, logged before the increment): the step count only counts completed actions
 RepeatMore ==
   /\ Is("h.repeat.more") /\ Adv
@@ -223,14 +232,14 @@ SmEnd ==
 
 Handled == {"h.custom.begin", "hang", "example.begin", "example.end", "scen.begin", "scen.end", "h.phase", "h.once.begin", "inv.begin", "cinv.begin", "inv.end", "cinv.end", "h.custom.end", "h.once.end",
             "cleanup.reg", "cleanup.run", "cleanup.end", "ctx", "sm.begin", "sm.inv.begin", "sm.inv.end", "sm.action.begin", "sm.action.end",
-            "draw", "call", "h.repeat.more", "sm.end"}
+            "draw", "call", "h.repeat.more", "sm.end", "h.overrun"}
 \* the watchdog saw an invocation still running after 90 s: the library hung
 Hang == /\ Is("hang") /\ Adv /\ viol' = viol \cup {"hangs"} /\ UNCHANGED <<scen, fr, kind, sm, seen>>
 
 Other == /\ l <= Len(Trace) /\ Trace[l].ev \notin Handled /\ Adv /\ UNCHANGED <<scen, fr, kind, sm, viol, seen>>
 
 Next == CustomBegin \/ Hang \/ ExampleBegin \/ ExampleEnd \/ ScenBegin \/ ScenEnd \/ Phase \/ OnceBegin \/ InvBegin \/ CInvBegin \/ InvEnd \/ CInvEnd \/ CustomEnd \/ OnceEnd \/ Reg \/ Run \/ RunEnd
-        \/ Ctx \/ SmBegin \/ SmInvBegin \/ SmInvEnd \/ SmActBegin \/ SmActEnd \/ SmDraw \/ SmCall \/ RepeatMore \/ SmEnd \/ Other
+        \/ Ctx \/ SmBegin \/ SmInvBegin \/ SmInvEnd \/ SmActBegin \/ SmActEnd \/ SmDraw \/ SmCall \/ RepeatMore \/ Overrun \/ SmEnd \/ Other
 
 Spec == Init /\ [][Next]_vars
 
